@@ -2,6 +2,7 @@ package lsp
 
 import (
 	"bufio"
+	"bytes"
 	"encoding/json"
 	"fmt"
 	"io"
@@ -330,7 +331,7 @@ func (s *Server) handleMessage(msg json.RawMessage) {
 	if !s.checkRateLimit() {
 		// For requests with IDs, send rate limit error response
 		var req Request
-		if err := json.Unmarshal(msg, &req); err == nil && req.ID != nil {
+		if err := decodeRequest(msg, &req); err == nil && req.ID != nil {
 			s.sendError(req.ID, RequestCancelled, "rate limit exceeded")
 		}
 		return
@@ -344,7 +345,7 @@ func (s *Server) handleMessage(msg json.RawMessage) {
 
 	// Try to parse as request
 	var req Request
-	if err := json.Unmarshal(msg, &req); err != nil {
+	if err := decodeRequest(msg, &req); err != nil {
 		s.logger.Printf("Failed to parse message: %v", err)
 		// Try to extract ID for error response even with malformed JSON
 		s.handleMalformedRequest(msg, err)
@@ -377,6 +378,15 @@ func (s *Server) handleMessage(msg json.RawMessage) {
 	}
 }
 
+// decodeRequest decodes one message. Numeric ids are kept as json.Number so
+// that the response echoes exactly the digits the client sent (a float64 would
+// round ids above 2^53).
+func decodeRequest(msg json.RawMessage, req *Request) error {
+	dec := json.NewDecoder(bytes.NewReader(msg))
+	dec.UseNumber()
+	return dec.Decode(req)
+}
+
 // safeHandleRequest runs a request handler; a panic in it becomes an error
 // response instead of ending the server.
 func (s *Server) safeHandleRequest(method string, params json.RawMessage) (result interface{}, err error) {
@@ -406,7 +416,9 @@ func (s *Server) handleMalformedRequest(msg json.RawMessage, parseErr error) {
 	var partial struct {
 		ID interface{} `json:"id"`
 	}
-	if err := json.Unmarshal(msg, &partial); err == nil && partial.ID != nil {
+	dec := json.NewDecoder(bytes.NewReader(msg))
+	dec.UseNumber()
+	if err := dec.Decode(&partial); err == nil && partial.ID != nil {
 		s.sendError(partial.ID, ParseError, fmt.Sprintf("parse error: %v", parseErr))
 	}
 }
